@@ -170,6 +170,30 @@ func runC05(c *Ctx) {
 				}
 			}
 		}
+		// nothing but the two length fields is interpreted before the comparison: a test of the method byte
+		// ahead of it turns an altered byte into a plain error instead of the corruption error
+		for _, b := range rb.Blocks {
+			ifi, ok := b.Instrs[len(b.Instrs)-1].(*ssa.If)
+			if !ok {
+				continue
+			}
+			usesMethod := core.DependsOn(ifi.Cond, func(x ssa.Value) bool {
+				ia, ok := x.(*ssa.IndexAddr)
+				if !ok {
+					return false
+				}
+				k, okc := core.ConstInt(ia.Index)
+				f := readerField(ia.X)
+				return okc && k == 16 && (f == "header" || f == "raw")
+			}, false)
+			if !usesMethod {
+				continue
+			}
+			if !core.OnlyViaEdges(rb, ifi, cmpEdgesOK) {
+				bad = true
+				c.R.Bad(rule, core.FuncName(rb)+"/method-before-verify", cfg, p.Pos(ifi.Cond.Pos()), "the method byte is examined before the checksum comparison: a frame whose method byte was altered (length fields intact) is rejected with a plain error, not with the corruption error carrying both checksums")
+			}
+		}
 		// payload consumers only via the equal edge
 		for _, call := range core.Calls(rb) {
 			f := core.CalleeFunc(call)
@@ -457,6 +481,64 @@ func runC05(c *Ctx) {
 		}
 	}()
 
+	// ---- C05.cursor
+	rule = "C05.cursor"
+	c.R.Rule(rule, "bytes leave the decompressing reader only from the unread part of the current frame: in every method of compress.Reader outside the frame-filling code, each use of the data buffer is a length query, a truncation, or a slice whose lower bound is the read position - handing out data (or data[:n]) from an entry point other than Read after a partial read repeats bytes the caller already consumed")
+	func() {
+		fill := map[*ssa.Function]bool{rb: true}
+		for _, cc := range core.Calls(rb) {
+			if sf := core.StaticFn(cc); sf != nil && pkgOf(sf) != nil && pkgOf(sf).Path() == core.PkgCompress {
+				fill[sf] = true
+			}
+		}
+		n := 0
+		for _, fn := range p.Funcs() {
+			if fn.Blocks == nil || fill[fn] || pkgOf(fn) == nil || pkgOf(fn).Path() != core.PkgCompress {
+				continue
+			}
+			if nm := core.RecvNamed2(fn); nm == nil || nm.Obj().Name() != "Reader" {
+				continue
+			}
+			for _, b := range fn.Blocks {
+				for _, in := range b.Instrs {
+					ld, ok := in.(*ssa.UnOp)
+					if !ok || ld.Op != token.MUL || readerField(ld) != "data" {
+						continue
+					}
+					for _, ref := range *ld.Referrers() {
+						okUse := false
+						switch u := ref.(type) {
+						case *ssa.Call:
+							if bi, ok := u.Call.Value.(*ssa.Builtin); ok && (bi.Name() == "len" || bi.Name() == "cap") {
+								okUse = true
+							}
+						case *ssa.Slice:
+							if u.Low != nil && core.DependsOn(u.Low, func(x ssa.Value) bool { return readerField(x) == "pos" }, false) {
+								okUse = true
+								n++
+							}
+							if u.High != nil {
+								if k, ok := core.ConstInt(u.High); ok && k == 0 {
+									okUse = true
+								}
+							}
+						case *ssa.DebugRef:
+							okUse = true
+						}
+						if !okUse {
+							c.R.Bad(rule, core.FuncName(fn)+"/data-use", cfg, p.Pos(ref.Pos()), "the data buffer is used from its start (not from the read position) outside the frame-filling code: after a partial Read the already consumed prefix of the frame is delivered again")
+						}
+					}
+				}
+			}
+		}
+		if n == 0 {
+			c.R.Unk(rule, "compress.Reader.data", cfg, p.Pos(rd.Pos()), "no data[pos:] hand-out found")
+		} else {
+			c.R.Ok(rule, "compress.Reader.data", cfg, p.Pos(rd.Pos()), sprintf("%d hand-outs, all from data[pos:]", n))
+		}
+	}()
+
 	// ---- C05.alias
 	rule = "C05.alias"
 	c.R.Rule(rule, "the decompressed-data buffer never aliases the raw frame buffer: every value stored to Reader.data derives from Reader.data itself (append to data[:0], DecodeAll into data[:0]) and not from Reader.raw - otherwise the next frame is decompressed in place over its own source")
@@ -500,6 +582,7 @@ func runC05(c *Ctx) {
 	ruleCompressDst(c, p, "C05.dst")
 	ruleMethodTable(c, p, "C05.methods")
 	ruleCodecLimits(c, p, "C05.codec-limits")
+	ruleCompressibleArg(c, p, "C05.compressible")
 
 	// ---- C05.frame
 	ruleFrameLayout(c, p, "C05.frame", rb, wr)
@@ -570,7 +653,13 @@ func ruleFrameLayout(c *Ctx, p *core.Program, rule string, rb, wr *ssa.Function)
 			return false
 		}, false)
 	}
-	for _, b := range rb.Blocks {
+	var rblocks []*ssa.BasicBlock
+	for f := range core.StaticReach(rb, 2) {
+		if pkgOf(f) != nil && pkgOf(f).Path() == core.PkgCompress {
+			rblocks = append(rblocks, f.Blocks...)
+		}
+	}
+	for _, b := range rblocks {
 		for _, in := range b.Instrs {
 			if bo, ok := in.(*ssa.BinOp); ok && bo.Op == token.SUB {
 				if k, ok := core.ConstInt(bo.Y); ok {
@@ -817,6 +906,121 @@ func noDecrease(v, checked ssa.Value, d int) bool {
 	return false
 }
 
+// rangeChecksAt: in fn, is the instruction `at` reachable only through the passing edges of an
+// upper-bound test (> constant) and of a `< 0` test of a value derived from the wire value sz?
+// `used` is the value whose size matters at `at` (the lower-bound test must be on a value that is
+// not decreased afterwards). limit is the largest value an upper-bound test lets through.
+func rangeChecksAt(fn *ssa.Function, at ssa.Instruction, used, sz ssa.Value) (upperOK, lowerOK bool, limit int64) {
+	derived := func(v ssa.Value) bool {
+		return core.DependsOn(v, func(x ssa.Value) bool { return x == sz }, false)
+	}
+	upper := core.CondEdges(fn, false, func(cond ssa.Value) (bool, bool) {
+		bo, ok := cond.(*ssa.BinOp)
+		if !ok {
+			return false, false
+		}
+		if k, okc := core.ConstInt(bo.Y); okc && k > 0 && derived(bo.X) {
+			switch bo.Op {
+			case token.GTR, token.LEQ:
+				if k > limit {
+					limit = k
+				}
+			case token.GEQ, token.LSS:
+				if k-1 > limit {
+					limit = k - 1
+				}
+			}
+			switch bo.Op {
+			case token.GTR, token.GEQ:
+				return true, true
+			case token.LEQ, token.LSS:
+				return false, true
+			}
+		}
+		return false, false
+	})
+	lower := core.CondEdges(fn, false, func(cond ssa.Value) (bool, bool) {
+		bo, ok := cond.(*ssa.BinOp)
+		if !ok {
+			return false, false
+		}
+		if k, okc := core.ConstInt(bo.Y); okc && k == 0 && derived(bo.X) && noDecrease(used, bo.X, 0) {
+			switch bo.Op {
+			case token.LSS:
+				return true, true
+			case token.GEQ:
+				return false, true
+			}
+		}
+		return false, false
+	})
+	upperOK = len(upper) > 0 && core.OnlyViaEdges(fn, at, upper)
+	lowerOK = len(lower) > 0 && core.OnlyViaEdges(fn, at, lower)
+	return
+}
+
+// frameSize: a header size as seen in readBlock - read there, or handed back by a helper that
+// reads (and possibly validates) it.
+type frameSize struct {
+	val    ssa.Value     // the value in readBlock (the Uint32 call, or the Extract of the helper's result)
+	src    ssa.Value     // the Uint32 call
+	helper *ssa.Function // nil when read in readBlock itself
+	call   *ssa.Call     // the helper call in readBlock
+	idx    int           // result index
+}
+
+func frameSizes(rb *ssa.Function) []frameSize {
+	var out []frameSize
+	for _, call := range core.FindCalls(rb, isLEUint("Uint32")) {
+		if v, ok := call.(*ssa.Call); ok {
+			out = append(out, frameSize{val: v, src: v})
+		}
+	}
+	for _, cc := range core.Calls(rb) {
+		cl, ok := cc.(*ssa.Call)
+		g := core.StaticFn(cc)
+		if !ok || g == nil || g.Blocks == nil || pkgOf(g) == nil || pkgOf(g).Path() != core.PkgCompress {
+			continue
+		}
+		for _, uc := range core.FindCalls(g, isLEUint("Uint32")) {
+			sz, ok := uc.(*ssa.Call)
+			if !ok {
+				continue
+			}
+			res := g.Signature.Results()
+			for i := 0; i < res.Len(); i++ {
+				if b, ok := res.At(i).Type().Underlying().(*types.Basic); !ok || b.Info()&types.IsInteger == 0 {
+					continue
+				}
+				dep := false
+				for _, b := range g.Blocks {
+					if ret, ok := b.Instrs[len(b.Instrs)-1].(*ssa.Return); ok && len(ret.Results) > i && defaultSuccess(g, ret) {
+						if core.DependsOn(ret.Results[i], func(x ssa.Value) bool { return x == ssa.Value(sz) }, false) {
+							dep = true
+						}
+					}
+				}
+				if !dep {
+					continue
+				}
+				var ex ssa.Value
+				for _, r := range *cl.Referrers() {
+					if e, ok := r.(*ssa.Extract); ok && e.Index == i {
+						ex = e
+					}
+				}
+				if res.Len() == 1 {
+					ex = cl
+				}
+				if ex != nil {
+					out = append(out, frameSize{val: ex, src: sz, helper: g, call: cl, idx: i})
+				}
+			}
+		}
+	}
+	return out
+}
+
 // ruleFrameBounds (C05.bounds / C06.frame): header sizes are range-checked before they size an allocation.
 func ruleFrameBounds(c *Ctx, p *core.Program, rule string) {
 	cfg := p.Cfg.Name
@@ -824,13 +1028,8 @@ func ruleFrameBounds(c *Ctx, p *core.Program, rule string) {
 	if !c.must(p, "compress.(*Reader).readBlock", rb != nil) {
 		return
 	}
-	var sizes []ssa.Value
-	for _, call := range core.FindCalls(rb, isLEUint("Uint32")) {
-		if v, ok := call.(*ssa.Call); ok {
-			sizes = append(sizes, v)
-		}
-	}
-	c.R.Rule(rule, "E5 in readBlock: every allocation whose size derives from a header field (both Uint32 fields of the frame header) is reachable only through the false edges of a lower-bound test (< 0) and of an upper-bound test (> constant limit) of that size; the limits do not exceed the documented 128 MiB")
+	sizes := frameSizes(rb)
+	c.R.Rule(rule, "E5 in readBlock: every allocation whose size derives from a header field (both Uint32 fields of the frame header) is reachable only through the false edges of a lower-bound test (< 0) and of an upper-bound test (> constant limit) of that size; the limits do not exceed the documented 128 MiB. When the sizes are read by a helper of package compress, the tests are looked for in the helper (on every path to its success exits, on the value it returns) and the allocation must lie behind the nil edge of the helper's error")
 	func() {
 		if len(sizes) < 2 {
 			c.R.Unk(rule, core.FuncName(rb), cfg, p.Pos(rb.Pos()), sprintf("%d header size fields found, expected 2", len(sizes)))
@@ -843,60 +1042,55 @@ func ruleFrameBounds(c *Ctx, p *core.Program, rule string) {
 				if !ok {
 					continue
 				}
-				for si, sz := range sizes {
-					if !core.DependsOn(ms.Len, func(v ssa.Value) bool { return v == sz }, false) {
+				for si, fs := range sizes {
+					if !core.DependsOn(ms.Len, func(v ssa.Value) bool { return v == fs.val }, false) {
 						continue
 					}
 					nSink++
 					key := sprintf("%s/alloc#%d/size#%d", core.FuncName(rb), nSink, si+1)
-					derived := func(v ssa.Value) bool {
-						return core.DependsOn(v, func(x ssa.Value) bool { return x == sz }, false)
+					var upperOK, lowerOK bool
+					var limit int64
+					if fs.helper == nil {
+						upperOK, lowerOK, limit = rangeChecksAt(rb, ms, ms.Len, fs.src)
+					} else {
+						upperOK, lowerOK = true, true
+						nret := 0
+						for _, hb := range fs.helper.Blocks {
+							ret, ok := hb.Instrs[len(hb.Instrs)-1].(*ssa.Return)
+							if !ok || !defaultSuccess(fs.helper, ret) || len(ret.Results) <= fs.idx {
+								continue
+							}
+							nret++
+							u, l, lim := rangeChecksAt(fs.helper, ret, ret.Results[fs.idx], fs.src)
+							upperOK, lowerOK = upperOK && u, lowerOK && l
+							if lim > limit {
+								limit = lim
+							}
+						}
+						// in readBlock: behind the nil edge of the helper's error, and not decreased afterwards
+						behind := false
+						if ev := core.ErrValue(fs.call); ev != nil {
+							al := core.Aliases(rb, ev)
+							nilEdges := core.CondEdges(rb, false, func(cond ssa.Value) (bool, bool) {
+								x, nonNil, ok := nilCmp(cond)
+								if !ok || !al[x] {
+									return false, false
+								}
+								return nonNil, true
+							})
+							behind = len(nilEdges) > 0 && core.OnlyViaEdges(rb, ms, nilEdges)
+						}
+						if nret == 0 || !behind {
+							upperOK = false
+						}
+						if !noDecrease(ms.Len, fs.val, 0) {
+							lowerOK = false
+						}
 					}
-					limit := int64(0) // largest size any upper-bound test lets through
-					upper := core.CondEdges(rb, false, func(cond ssa.Value) (bool, bool) {
-						bo, ok := cond.(*ssa.BinOp)
-						if !ok {
-							return false, false
-						}
-						if k, okc := core.ConstInt(bo.Y); okc && k > 0 && derived(bo.X) {
-							switch bo.Op {
-							case token.GTR, token.LEQ:
-								if k > limit {
-									limit = k
-								}
-							case token.GEQ, token.LSS:
-								if k-1 > limit {
-									limit = k - 1
-								}
-							}
-							switch bo.Op {
-							case token.GTR, token.GEQ:
-								return true, true
-							case token.LEQ, token.LSS:
-								return false, true
-							}
-						}
-						return false, false
-					})
-					lower := core.CondEdges(rb, false, func(cond ssa.Value) (bool, bool) {
-						bo, ok := cond.(*ssa.BinOp)
-						if !ok {
-							return false, false
-						}
-						if k, okc := core.ConstInt(bo.Y); okc && k == 0 && derived(bo.X) && noDecrease(ms.Len, bo.X, 0) {
-							switch bo.Op {
-							case token.LSS:
-								return true, true
-							case token.GEQ:
-								return false, true
-							}
-						}
-						return false, false
-					})
 					switch {
-					case len(upper) == 0 || !core.OnlyViaEdges(rb, ms, upper):
+					case !upperOK:
 						c.R.Bad(rule, key, cfg, p.Pos(ms.Pos()), "an allocation sized by a frame header field is reachable without an upper-bound check: a corrupted or hostile frame requests up to 4 GiB")
-					case len(lower) == 0 || !core.OnlyViaEdges(rb, ms, lower):
+					case !lowerOK:
 						c.R.Bad(rule, key, cfg, p.Pos(ms.Pos()), "an allocation sized by a frame header field is reachable without a `< 0` check of the value that is allocated (a check made before a constant is subtracted does not count; the size is int(uint32) minus a constant, and int is 32 bits on the pure-Go targets): make() panics")
 					case limit > 128<<20:
 						c.R.Bad(rule, key, cfg, p.Pos(ms.Pos()), sprintf("the upper-bound test lets a header size of %d through: the documented limit for frame sizes is 128 MiB (%d)", limit, 128<<20))
